@@ -19,6 +19,8 @@ for d in ids:
     mp = f"{sd}/meta.json"
     if os.path.exists(mp):
         checks = json.load(open(mp)).get("checks", checks)
+    if os.environ.get("SEED_CHECKS"):      # e.g. every check against one property-preserving change
+        checks = os.environ["SEED_CHECKS"].split()
     wt = f"/tmp/seedrun{d}"
     sh(f"git -C /repo worktree remove --force {wt}; rm -rf {wt}; git -C /repo worktree prune")
     r = sh(f"git -C /repo worktree add -q --detach {wt} HEAD")
